@@ -3,9 +3,12 @@
 # run it against the quick check of its own property (and any extra ones) on /repo, record a matrix-format row.
 cd "$(dirname "$0")/.."
 id=$1; shift
-v=$(tools/verify_seed.sh /tmp/seedout/$id 2>&1 | tail -1)
+v=$(grep -a "^$id:" results/seed-verification-round5.txt 2>/dev/null | tail -1)
+if [ -z "$v" ]; then
+  v=$(tools/verify_seed.sh /tmp/seedout/$id 2>&1 | tail -1)
+  echo "$v" >> results/seed-verification-round5.txt
+fi
 echo "$v"
-echo "$v" >> results/seed-verification-round5.txt
 case "$v" in *"demo_clean=PASS apply=ok build=ok demo_patched=FAIL(good) suite=pass"*) ;; *) echo "NOT CONFIRMED - not installed"; exit 1;; esac
 mkdir -p seeded/$id; cp /tmp/seedout/$id/* seeded/$id/
 line="$id"
